@@ -96,15 +96,15 @@ CondOp = 'COND' '(' CondClause (',' CondClause)* ')' ;
 const G_MAX: &str = r#"
 Include = 'include' 'STR'+ ;
 ForeachInit = '{' RangeList '}' | RangePiece | Value ;
-TemplateArgList = '<' (TemplateArgDecl (',' TemplateArgDecl)* ','?)? '>' ;
+TemplateArgList = '<' TemplateArgDecl (',' TemplateArgDecl)* ','? '>' ;
 ParentClassList = (':' ClassRef (',' ClassRef)*)? ;
 ArgValueList = (ArgAny (',' ArgAny)* ','?)? ;
 ArgAny = Value | NamedArg ;
 FieldType = Type ;
 Type = 'bit' | 'int' | 'string' | 'dag' | 'code' | 'bits' '<' Value '>' | 'list' '<' Type '>' | 'ID' ;
-RangeList = (RangePiece (',' RangePiece)* ','?)? ;
+RangeList = RangePiece (',' RangePiece)* ','? ;
 RangePiece = Int | Int '...' Int | Int '-' Int | Int Int ;
-SliceElements = (SliceElement (',' SliceElement)* ','?)? ;
+SliceElements = SliceElement (',' SliceElement)* ','? ;
 SliceElement = Value | Value '...' Value | Value '-' Value | Value Value ;
 Str = 'STR'+ ;
 Bits = '{' ValueListOpt '}' ;
@@ -114,8 +114,8 @@ List = '[' ValueListOpt ']' ('<' Type '>')? ;
 Dag = '(' (DagArg (','? DagArgList)? ','?)? ')' ;
 DagArg = Value (':' 'VAR')? | 'VAR' ;
 BangOp = BangTok ('<' Type '>')? '(' ValueListOpt ')' ;
-BangTok = 'BANG' | 'CASTOP' | 'GETDAGOP' | 'COND' ;
-CondOp = 'COND' '(' (CondClause (',' CondClause)* ','?)? ')' ;
+BangTok = 'BANG' | 'CASTOP' | 'GETDAGOP' ;
+CondOp = 'COND' '(' CondClause (',' CondClause)* ','? ')' ;
 "#;
 
 fn g_min() -> &'static Grammar {
